@@ -614,11 +614,18 @@ def gen_deep(rng, tier, n_classes):
         vg = gen.ValGen(rng)
         fields = []
         for nm in rng.sample(["aa", "b_1", "deep", "m2", "tt"], rng.randint(1, 3)):
-            want_struct = rng.random() < 0.3
+            r = rng.random()
+            want_struct = r < 0.3
+            want_coll_of_struct = 0.3 <= r < 0.45
             for _ in range(30):
-                # a collection nested >= 2 levels, or a (top-level) class reference
-                fd = dg.class_decl(1, n_fields=rng.randint(1, 3)) if want_struct else dg.decl(0)
-                if (want_struct or container_depth(fd) >= 2) and '"inline"' not in json.dumps(fd):
+                # a collection nested >= 2 levels, a (top-level) class reference, or a collection of class references
+                if want_struct:
+                    fd = dg.class_decl(1, n_fields=rng.randint(1, 3))
+                elif want_coll_of_struct:
+                    fd = coll_of(rng.choice(["seqOf", "deque", "tupleOf", "mapVal"]), dg.class_decl(2, n_fields=rng.randint(1, 3)))
+                else:
+                    fd = dg.decl(0)
+                if (want_struct or want_coll_of_struct or container_depth(fd) >= 2) and '"inline"' not in json.dumps(fd):
                     fields.append([nm, fd])
                     break
         if not fields:
@@ -1434,6 +1441,12 @@ def oracle(case, impl, model):
             if bare != aligned[idx]["path"]:
                 fails.append(("wrong-position:suffix-chain",
                               f"the path {p!r} names field {hit[0]} but not the rejected position {aligned[idx]['path']!r}: {t!r} [{where}]"))
+        elif aligned and aligned[idx].get("kind") == "named" and aligned[idx].get("head") and model.get("deep") \
+                and not t.startswith(aligned[idx]["head"]):
+            # deserialization at depth: the text must begin with the path of the first rejected element
+            # (Lean `dHead`: one `_<i>` per homogeneous level, `<name>_<i>: ` per positional level)
+            fails.append(("wrong-position:deser-head",
+                          f"the message names field {hit[0]} but does not begin with the rejected position {aligned[idx]['head']!r}: {t!r} [{where}]"))
     # (3) every ErrorInfo carries such a field and a non-empty problem
     for idx, i in enumerate(infos):
         hit = [n for n in (own(idx) if idx < len(texts) else invalid) if n in invalid and names_field(i.get("field"), cls_name, n)]
